@@ -198,6 +198,31 @@ func rootFiles(pool []string) (string, string, error) {
 	return f1, f2, os.WriteFile(f2, rest, 0o644)
 }
 
+// rootFilesOdd: the same two files under names that are also patterns ('<pool>[x].piv.pem', '<pool>?.u2f.pem'),
+// next to files those patterns match ('<pool>x.piv.pem', '<pool>y.u2f.pem') which hold the CA that is NOT configured.
+func rootFilesOdd(pool []string) (string, string, error) {
+	f1, f2, err := rootFiles(pool)
+	if err != nil {
+		return "", "", err
+	}
+	rootFilesMu.Lock()
+	defer rootFilesMu.Unlock()
+	d, name := filepath.Dir(f1), strings.Join(pool, "+")
+	o1, o2 := filepath.Join(d, name+"[x].piv.pem"), filepath.Join(d, name+"?.u2f.pem")
+	if _, serr := os.Stat(o2); serr == nil {
+		return o1, o2, nil
+	}
+	b1, _ := os.ReadFile(f1)
+	b2, _ := os.ReadFile(f2)
+	foreign := vh.PEMCert(rootCert("foreign").Raw)
+	for file, content := range map[string][]byte{o1: b1, filepath.Join(d, name+"x.piv.pem"): foreign, filepath.Join(d, name+"y.u2f.pem"): foreign} {
+		if werr := os.WriteFile(file, content, 0o644); werr != nil {
+			return "", "", werr
+		}
+	}
+	return o1, o2, os.WriteFile(o2, b2, 0o644)
+}
+
 func rootSpec(name string) vh.CertSpec {
 	keys := map[string]string{"rootA": "rsa2048a", "rootB": "p256a", "rootC": "rsa2048b", "foreign": "rsa2048c", "twinA": "rsa2048d"}
 	cn := "verif " + name
@@ -324,7 +349,7 @@ func genCase(t *rapid.T) Case {
 	if focus >= 8 && rapid.IntRange(0, 2).Draw(t, "degenerateRoots") == 1 {
 		// degenerate root configurations, judged with a genuine signature; half of them under a device certificate
 		// issued by the CA the host trust store knows (the fallback a missing pool would open)
-		c.Ctor = rapid.SampledFrom([]string{"files-none", "files-none", "files-missing", "files-dir", "files-first-empty", "files-second-empty"}).Draw(t, "degenerateCtor")
+		c.Ctor = rapid.SampledFrom([]string{"files-none", "files-none", "files-missing", "files-dir", "files-first-empty", "files-second-empty", "files-oddnames", "files-oddnames", "files-oddnames"}).Draw(t, "degenerateCtor")
 		if rapid.Bool().Draw(t, "degenerateForeign") {
 			c.Issuer, c.Validity = "foreign", "ok"
 		}
@@ -657,12 +682,17 @@ func exec(c Case) (vh.Outcome, error) {
 			}
 		case "files-second-empty":
 			f2, loaded = "", c.Pool[:1]
+		case "files-oddnames":
+			var oerr error
+			if f1, f2, oerr = rootFilesOdd(c.Pool); oerr != nil {
+				return out, nil
+			}
 		}
 		var cerr error
 		at, cerr = yubiattest.NewAttestor(f1, f2)
 		if cerr != nil || at == nil {
-			if c.Ctor == "files" {
-				return out, vh.Errf("NewAttestor refused root files holding %v: %v", c.Pool, cerr)
+			if c.Ctor == "files" || c.Ctor == "files-oddnames" {
+				return out, vh.Errf("NewAttestor (%s) refused root files holding %v: %v", c.Ctor, c.Pool, cerr)
 			}
 			out.Classes = append(out.Classes, "degenerate-roots-refused")
 			return out, nil
@@ -726,7 +756,7 @@ func exec(c Case) (vh.Outcome, error) {
 	return out, nil
 }
 
-const rule = "the harness owns the device RSA private key and signs arbitrary encoded messages (sig = EM^d mod N): correct form 1 (with NULL) and form 2 (without) for SHA-1/256/384/512; one byte replaced at a position drawn per class (00, 01, first / last / inner padding byte, separator, identifier, digest); shortened padding with shifted tail and garbage; short EM with 0..7 padding bytes; full-length EM whose DigestInfo is another DER / BER spelling (junk inside the algorithm identifier or behind the digest with adjusted lengths, long-form or indefinite lengths, other parameters, junk behind it); identifier of another hash; the label's digest behind the identifier of another algorithm (incl. RIPEMD-160, whose digests are as long as SHA-1's) or behind no identifier; digest of other data; single-bit flips of signature and body; arbitrary signature bytes; a genuine signature with one or two bytes added in front or one behind; genuine ECDSA signature under a non-RSA device key. A fifth of the cases keep the signature genuine and vary only the chain side (issuer, dates, extensions, the issuer's signature algorithm, constructor). Crossed with every signature-algorithm label 0..20, device key sizes 1024/1025/1031/1536/2047/2048 (a sixth of the root-issued device certificates carry the modulus under another public exponent: 3, 17, 2^31+1, 2^32+1, 2^40+1) (rarely 4096/4104/4608/6144; always, with 3072, in thorough), device certificate issued by a pool root / by a CA outside the pool / self-signed / expired / not yet valid, optionally carrying a vendor extension (Yubico arc, plain or critical) or another unknown critical extension (then only 'accepted => valid chain' is judged), signed by its issuer with SHA-256 / SHA-384 / SHA-512 or SHA-1 (which the platform verifier refuses by policy: only 'accepted => valid chain' is judged), pools of 1..3 roots handed over as a pool or (a third) as the two PEM files NewAttestor reads - and, in a fifteenth of all cases (always with a genuine signature, half of them under a device certificate issued by the CA the host trust store knows), as a degenerate configuration (both paths empty, missing files, directories, one path empty): either refused by the constructor or no root beyond the readable files is trusted - the CA outside the pool is installed as this process's host trust store (SSL_CERT_FILE), i.e. a publicly trusted CA that is not configured -, slot certificate dated now / inside an expired device certificate's window / in the future / not at all (the chain must be judged at the current time). Oracle: the harness recomputes sig^e mod N itself; the verdict is the same when the call is repeated after a genuine attestation under the same device key; for *WithRSA SHA labels Attest = nil iff chain valid now and EM is form 1 or form 2 of the label's digest; DSA/ECDSA labels only-if; everything else must be refused. Non-trivial: every case except 'everything valid, form 1'."
+const rule = "the harness owns the device RSA private key and signs arbitrary encoded messages (sig = EM^d mod N): correct form 1 (with NULL) and form 2 (without) for SHA-1/256/384/512; one byte replaced at a position drawn per class (00, 01, first / last / inner padding byte, separator, identifier, digest); shortened padding with shifted tail and garbage; short EM with 0..7 padding bytes; full-length EM whose DigestInfo is another DER / BER spelling (junk inside the algorithm identifier or behind the digest with adjusted lengths, long-form or indefinite lengths, other parameters, junk behind it); identifier of another hash; the label's digest behind the identifier of another algorithm (incl. RIPEMD-160, whose digests are as long as SHA-1's) or behind no identifier; digest of other data; single-bit flips of signature and body; arbitrary signature bytes; a genuine signature with one or two bytes added in front or one behind; genuine ECDSA signature under a non-RSA device key. A fifth of the cases keep the signature genuine and vary only the chain side (issuer, dates, extensions, the issuer's signature algorithm, constructor). Crossed with every signature-algorithm label 0..20, device key sizes 1024/1025/1031/1536/2047/2048 (a sixth of the root-issued device certificates carry the modulus under another public exponent: 3, 17, 2^31+1, 2^32+1, 2^40+1) (rarely 4096/4104/4608/6144; always, with 3072, in thorough), device certificate issued by a pool root / by a CA outside the pool / self-signed / expired / not yet valid, optionally carrying a vendor extension (Yubico arc, plain or critical) or another unknown critical extension (then only 'accepted => valid chain' is judged), signed by its issuer with SHA-256 / SHA-384 / SHA-512 or SHA-1 (which the platform verifier refuses by policy: only 'accepted => valid chain' is judged), pools of 1..3 roots handed over as a pool or (a third) as the two PEM files NewAttestor reads - and, in a fifteenth of all cases (always with a genuine signature, half of them under a device certificate issued by the CA the host trust store knows), as a degenerate configuration (both paths empty, missing files, directories, one path empty: either refused by the constructor or no root beyond the readable files is trusted) or as files whose names are also patterns ('...[x].piv.pem', '...?.u2f.pem') next to files those patterns match and which hold the CA that is not configured - the CA outside the pool is installed as this process's host trust store (SSL_CERT_FILE), i.e. a publicly trusted CA that is not configured -, slot certificate dated now / inside an expired device certificate's window / in the future / not at all (the chain must be judged at the current time). Oracle: the harness recomputes sig^e mod N itself; the verdict is the same when the call is repeated after a genuine attestation under the same device key; for *WithRSA SHA labels Attest = nil iff chain valid now and EM is form 1 or form 2 of the label's digest; DSA/ECDSA labels only-if; everything else must be refused. Non-trivial: every case except 'everything valid, form 1'."
 
 func TestC06Attest(t *testing.T) {
 	vh.Run(t, vh.Spec[Case]{Property: "C06", Name: "TestC06Attest", Rule: rule, Gen: genCase, Exec: exec})
